@@ -1,5 +1,5 @@
 /* C08: the aggregate type description handed to the backend describes the same layout as the C struct.  Members (-DSEQ, one letter each:
- * c s i l f d = char short int long float double, C S I L = bit-field in that unit with symbolic width, a = char[3], A = int[2]) go through
+ * c s i l f d = char short int long float double, C S I L = bit-field in that unit with symbolic width, a = char[3], A = int[2], m = char[2][3], N = int[2][2]) go through
  * the real decl.c:addmember (linked, mangled) and the real qbe.c:emittype; the printed descriptor is decoded and laid out with QBE's rule
  * (every item naturally aligned, struct size rounded to its alignment).  Unit included: qbe.c; linked: decl, type, util. */
 #include "common.h"
@@ -40,6 +40,8 @@ int main(void) {
 	ND_ARR(unsigned, bw, NM);
 	static struct type arrc = {.kind = TYPEARRAY, .size = 3, .align = 1}, arri = {.kind = TYPEARRAY, .size = 8, .align = 4};
 	arrc.base = &typechar; arri.base = &typeint;
+	static struct type arrc2 = {.kind = TYPEARRAY, .size = 6, .align = 1}, arri2 = {.kind = TYPEARRAY, .size = 16, .align = 4};     /* char[2][3], int[2][2] */
+	arrc2.base = &arrc; arri2.base = &arri;
 	struct type st = {.kind = TYPESTRUCT};
 	st.u.structunion.tag = "s";
 	struct structbuilder b = {&st, &st.u.structunion.members, 0, false};
@@ -48,7 +50,7 @@ int main(void) {
 		char k = seq[i]; bool bf = k == 'C' || k == 'S' || k == 'I' || k == 'L';
 		struct type *t = (k | 32) == 'c' ? &typeuchar : (k | 32) == 's' ? &typeushort : (k | 32) == 'i' ? &typeuint : (k | 32) == 'l' ? &typeulong
 			: k == 'f' ? &typefloat : k == 'd' ? &typedouble : k == 'a' ? &arrc : &arri;
-		if (k == 'a') t = &arrc; else if (k == 'A') t = &arri;
+		if (k == 'a') t = &arrc; else if (k == 'A') t = &arri; else if (k == 'm') t = &arrc2; else if (k == 'N') t = &arri2;
 		if (bf) ASSUME(bw[i] >= 1 && bw[i] <= t->size * 8);
 		mtype[i] = t;
 		addmember(&b, (struct qualtype){t, QUALNONE, 0}, names[i], 0, bf ? (unsigned long long)bw[i] : -1ull);
@@ -86,7 +88,7 @@ int main(void) {
 	 * Compare the classes the C members give with the classes the description gives. */
 	static char cclass[32], dclass[32];
 	for (struct member *m = st.u.structunion.members; m; m = m->next) {
-		struct type *e = m->type->kind == TYPEARRAY ? m->type->base : m->type;
+		struct type *e = m->type; while (e->kind == TYPEARRAY) e = e->base;
 		char k = (e->prop & PROPFLOAT) && !(m->bits.before || m->bits.after) ? 'F' : 'I';
 		for (unsigned long long j = m->offset; j < m->offset + m->type->size && j < 32; j++) if (cclass[j] != 'I') cclass[j] = k;
 	}
@@ -105,7 +107,7 @@ int main(void) {
 		for (struct member *o = st.u.structunion.members; o; o = o->next)
 			if (o != m && (o->bits.before || o->bits.after) && o->offset < m->offset + m->type->size && m->offset < o->offset + o->type->size) shared = true;
 		if (bf || shared) continue;
-		struct type *e = m->type->kind == TYPEARRAY ? m->type->base : m->type;
+		struct type *e = m->type; while (e->kind == TYPEARRAY) e = e->base;
 		bool found = false;
 		for (int i = 0; i < MAXIT; i++) if (i < nitem) {
 			unsigned s = isz(item[i].cls); unsigned long long end = start[i] + s * item[i].n;
